@@ -331,6 +331,12 @@ func ProfileFor(prop, tier string, seed uint64) *Profile {
 	if (prop == "C01" || prop == "C11" || prop == "C16") && ((thorough && seed%16 == 9) || (!thorough && seed%1000000 == 9) || giantForced) {
 		giant(pf, seed/16)
 	}
+	if prop == "C13" && ((thorough && seed%16 == 3) || bulkForced) {
+		bulk(pf, seed/16)
+	}
+	if (prop == "C01" || prop == "C11") && ((thorough && seed%16 == 5) || colossalForced) {
+		colossal(pf, seed/16)
+	}
 	return pf
 }
 
@@ -369,6 +375,51 @@ func giant(pf *Profile, r uint64) {
 	pf.CacheCaps = []int{0}
 	pf.Boundary, pf.WalStmts, pf.FlushImgs = 0, 0, 0
 }
+
+// colossal: one table grown past its 169 941st row - the row at which the
+// root of a height-3 tree is full and the tree gets its third level of
+// internal pages (9 rows per leaf split in the middle, 290 children per
+// internal page: 4 * 290 * 146 + ...). The height of a tree cannot be faked by
+// raising a counter; 172 000 rows are 43 000 leaves and a data file of 170 MB
+// on tmpfs. A sixteenth of the thorough jobs of C01 and C11 (~40 s each).
+func colossal(pf *Profile, r uint64) {
+	giant(pf, r)
+	pf.GiantRows = 170700 + int(r%4)*600
+	pf.MaxRows = 512
+	n := pf.GiantRows/pf.MaxRows + 12
+	pf.Stmts = [2]int{n, n + 10}
+	pf.WInsert, pf.WUpdate, pf.WDelete, pf.WSelect, pf.WRestart, pf.WCreate, pf.WFail, pf.WRaw = 30, 6, 6, 2, 3, 0, 2, 0
+	pf.CheckEvery = 400
+	if pf.Prop == "C11" {
+		pf.TreeEvery = 0 // one walk over 43 000 leaves at the end (TreeEvery 0 would mean never: see below)
+		pf.TreeEvery = n + 100
+	}
+}
+
+// bulk (C13, thorough): statements that touch thousands of rows - one table of
+// 4 200 to 16 500 rows, then whole-table and wide-range DELETEs and UPDATEs
+// held open across ticks. Code that treats a long statement differently from a
+// short one (yields its lock every so many rows, flushes in between, batches
+// its log records) only runs here. No yield-point sweep for these plans (each
+// derived plan would rebuild the table); the stalls of the plan itself place
+// the ticks early in the long statements.
+func bulk(pf *Profile, r uint64) {
+	giant(pf, r)
+	pf.GiantRows = []int{4200, 8300, 8900, 16500}[r%4]
+	pf.BulkStmts = true
+	n := pf.GiantRows/pf.MaxRows + 14
+	pf.Stmts = [2]int{n, n + 8}
+	pf.WInsert, pf.WUpdate, pf.WDelete, pf.WSelect, pf.WRestart, pf.WCreate, pf.WFail, pf.WRaw = 6, 30, 30, 6, 2, 0, 3, 0
+	pf.CheckEvery = 40
+	pf.StallP = 0.5
+	pf.TickModes = []string{"random", "sparse", "each"}
+}
+
+// bulkForced: SIM_BULK=1 makes every C13 plan a bulk one.
+var bulkForced = os.Getenv("SIM_BULK") != ""
+
+// colossalForced: SIM_COLOSSAL=1 makes every plan of C01 / C11 a colossal one.
+var colossalForced = os.Getenv("SIM_COLOSSAL") != ""
 
 // giantForced: SIM_GIANT=1 makes every plan of C01 / C11 / C16 a giant one (for
 // measurements and for trying a seeded change that needs the scale).
